@@ -50,6 +50,7 @@ func (t *target) RawConfig(dec, enc int) (string, bool) { return "", false }
 // RestoreRaw: the endpoint is the only way in.
 func (t *target) RestoreRaw(blob string, force bool) (string, bool) { return "", false }
 func (t *target) FailPut(k int)       { t.fs.FailAt = k }
+func (t *target) FailCommit()         { t.fs.FailCommit = true }
 
 // call performs one request; returns the response data and the canonical error class ("" = success).
 func (t *target) call(op logical.Operation, path string, data map[string]any) (d map[string]any, warnings []string, res string) {
